@@ -3,6 +3,7 @@
 package netpoll
 
 import (
+	"sync/atomic"
 	"syscall"
 	"unsafe"
 )
@@ -130,8 +131,22 @@ func verifK11Recvmsg(fd int, p, oob []byte, flags int) (n, oobn int, recvflags i
 	return 0, 0, 0, nil, syscall.ECONNRESET
 }
 
+// set by the trigger harness: a complete Trigger call from another goroutine may run just
+// before and just after the kernel performs the eventfd read
+var verifTrig11 *defaultPoll
+
 func verifK11Read(fd int, p []byte) (int, error) {
 	k := verifK11
+	if tp := verifTrig11; tp != nil {
+		if verifNondetBool("trigger.before.read") {
+			tp.Trigger()
+		}
+		defer func() {
+			if verifNondetBool("trigger.after.read") {
+				tp.Trigger()
+			}
+		}()
+	}
 	k.evfdRead++
 	for i := 0; i < 8 && i < len(p); i++ {
 		p[i] = k.evfd[i]
@@ -454,6 +469,50 @@ func verifHarness_C11_wakeup() {
 		verifAssert(len(k.closes) == 0, "C11/descriptor-closed-without-close")
 	}
 	verifAssert(p.wop.state == 1, "C11/slot-token-not-returned")
+	verifReach("end")
+}
+
+// Trigger against the loop that is consuming an earlier wake-up: up to two complete Trigger
+// calls from other goroutines land around the handler's eventfd read (before it, after it,
+// after the handler). Oracle ("Trigger wakes a blocked loop"): once the handler is done and the
+// loop goes back to sleep, one more Trigger leaves the eventfd readable — the wake-up flag and
+// the eventfd counter never get out of step (flag set with an empty eventfd would make every
+// later Trigger return without writing).
+//
+//verif:bounds one wake-up dispatch; 0..2 concurrent Trigger calls at the boundaries of the eventfd read, 1 Trigger afterwards
+//verif:loop 12
+//verif:replay interp
+func verifHarness_C11_trigger() {
+	p := verifPoll11(2)
+	k := verifK11
+	// the wake-up being consumed: one effective Trigger
+	verifAssert(p.Trigger() == nil, "C11/trigger-error")
+	verifAssert(k.evfd[7] == 1, "C11/first-trigger-did-not-write-the-eventfd")
+	events := make([]epollevent, 1)
+	events[0].events = ev11IN
+	p.setOperator(unsafe.Pointer(&events[0].data), p.wop)
+	verifTrig11 = p
+	closed := p.handler(events)
+	verifTrig11 = nil
+	verifAssert(!closed, "C11/loop-exit-iff-close")
+	// the loop is about to block again; a wake-up that is still pending is fine, a set flag
+	// without a pending wake-up is not
+	flag := atomic.LoadUint32(&p.trigger)
+	pending := false
+	for i := 0; i < 8; i++ {
+		if k.evfd[i] != 0 {
+			pending = true
+		}
+	}
+	verifAssert(flag == 0 || pending, "C11/trigger-flag-set-but-eventfd-empty")
+	verifAssert(p.Trigger() == nil, "C11/trigger-error")
+	woken := false
+	for i := 0; i < 8; i++ {
+		if k.evfd[i] != 0 {
+			woken = true
+		}
+	}
+	verifAssert(woken, "C11/trigger-does-not-wake-the-blocked-loop")
 	verifReach("end")
 }
 
